@@ -842,7 +842,9 @@ class Exec:
         if isinstance(v, str):
             return fresh_seq('str', name, st.assume)
         if isinstance(v, SSeq):
-            return fresh_seq(v.kind, name, st.assume)
+            r = fresh_seq(v.kind, name, st.assume)
+            r.tag = v.tag
+            return r
         if v is None:
             return None
         if isinstance(v, tuple):
@@ -1720,6 +1722,11 @@ class Exec:
                 return Or(*[sym.seq_eq(x, k) for k in coll.items
                             if isinstance(k, str)])
             raise Unsupported('symbolic key test at %d' % line)
+        if isinstance(coll, SSeq) and coll.kind == 'ilist' and \
+                hasattr(x, 'ident'):
+            if hasattr(x, 'member_of'):
+                return x.member_of(self, st, coll)
+            return sym.seq_contains_char(coll, x.ident)
         if isinstance(coll, SSeq) and coll.kind == 'ilist' and is_int(x):
             return sym.seq_contains_char(coll, x)
         raise Unsupported('`in` on %r at %d' % (coll, line))
@@ -1730,6 +1737,10 @@ class Exec:
                 yield st2, self.binop(node.op, a, b, st2, node.lineno)
 
     def binop(self, op, a, b, st, line):
+        if hasattr(a, 'py_binop'):
+            r = a.py_binop(self, st, op, b, line)
+            if r is not NotImplemented:
+                return r
         if isinstance(a, OptVal):
             self.prove(st, 'safe:none-operand@%d' % line, Not(a.isnone), line)
             a = a.val
@@ -1748,7 +1759,11 @@ class Exec:
             if is_str(a) and is_str(b):
                 return sym.seq_concat(a, b)
             if isinstance(a, SSeq) and isinstance(b, SSeq):
-                return sym.seq_concat(a, b)
+                r = sym.seq_concat(a, b)
+                if self.contracts.ilist_lemma_hook and a.kind == 'ilist':
+                    self.contracts.ilist_lemma_hook(self, st, 'concat',
+                                                    (a, b), r, None)
+                return r
             if isinstance(a, SSeq) and isinstance(b, TokList) and not b.segs:
                 return a
             if isinstance(b, SSeq) and isinstance(a, TokList) and not a.segs:
